@@ -55,18 +55,17 @@ func (f *Progx) Call(s *slip.Scope, args slip.List, depth int) slip.Object {
 	d2 := depth + 1
 	processBinding(ns, ns, args[0], d2)
 	for i := 1; i < len(args); i++ {
-		switch tr := slip.EvalArg(ns, args, i, d2).(type) {
-		case *slip.ReturnResult:
-			if tr.Tag == nil {
-				return tr.Result
-			}
-			if s.Block {
+		switch args[i].(type) {
+		case slip.List, slip.Funky:
+			switch tr := slip.EvalArg(ns, args, i, d2).(type) {
+			case *slip.ReturnResult:
+				if tr.Tag == nil {
+					return tr.Result
+				}
 				return tr
-			}
-		case *GoTo:
-			for i++; i < len(args); i++ {
-				if args[i] == tr.Tag {
-					break
+			case *GoTo:
+				if i = tr.TagIndex(args, 1); i < 0 {
+					return tr
 				}
 			}
 		}
